@@ -8,6 +8,7 @@ from engine.model import AnalysisError, src, dotted, stmt_key
 from engine.util import attr_accesses, with_exprs, enumerate_paths, is_const_none, own_nodes, root_name, where, calls_with_nodes
 
 RULES = {
+    "R-17.6": "TTLs with the top bit set are read as 0 (RFC 2181 8), so a hostile TTL cannot keep an answer cached for decades (C03 R-03.4 ttl-clamp adopted)",
     "R-17.5": "the expiration stored with a cached answer derives from the minimum TTL over the whole CNAME chain (C16 R-16.3 adopted: min-ttl accumulation and chain cursor of resolve_chaining)",
     "R-17.1": "every access to cache state happens inside the single `with self.lock` block of a public method (or in a helper only called under it)",
     "R-17.2": "a cached value is returned only on the not-expired side of an `expiration <= now` test on that same entry",
@@ -294,6 +295,7 @@ def run(model, rep, tier):
     rep.check("self.data = {}" in txt, "R-17.4", fl.qualname, where(fl, fl.node), "flush() clears the dict", "flush() does not clear the dict", stmt="flush-all")
     rep.assume("threading.Lock provides mutual exclusion; a single critical section per operation makes each operation atomic")
     rep.share(model, "C16", {"R-16.3"}, "R-17.5", "Answer.expiration = time + ChainingResult.minimum_ttl; an overwritten minimum keeps an answer cached after a CNAME in its chain expired")
+    rep.share(model, "C03", {"R-03.4"}, "R-17.6", "Answer.expiration is computed from the TTLs the wire reader stored", only=lambda o: o.stmt == "ttl-clamp")
     rep.meta["explanation"] = (
         "Lock-discipline (guarded-by) analysis of the three cache classes plus CFG dominance rules for the freshness "
         "test, path enumeration for the hit/miss counters, and structural pairing rules for the LRU ring. Decides the "
